@@ -7,6 +7,7 @@ import time
 
 from pyvc.runner import bounded
 from bounded.C01_api import Fail
+from bounded import harness as H
 
 import secsgem.common
 import secsgem.hsms
@@ -60,7 +61,7 @@ def run_case(sizes, pacing, rcvbuf=None):
         th = threading.Thread(target=lambda: box.setdefault("r", conn.send_data(payload)), daemon=True)
         th.start()
         # send_data legitimately lasts as long as the peer needs to drain the payload: the limit follows the reader's pace
-        th.join(20 + pacing[0] + (size / max(1, pacing[1])) * 0.004)
+        th.join((20 + pacing[0] + (size / max(1, pacing[1])) * 0.004) * H.scale())
         ok = box.get("r")
         results.append(ok)
         if ok:
@@ -68,7 +69,7 @@ def run_case(sizes, pacing, rcvbuf=None):
         if ok is None:
             break
     cli.close()
-    done.wait(20)
+    done.wait(20 * H.scale())
     peer.close()
     srv.close()
     return bytes(accepted), bytes(received), results
@@ -112,10 +113,10 @@ def run_lifecycle(size, pacing):
     box = {}
     th = threading.Thread(target=lambda: box.setdefault("r", conn.send_data(payload)), daemon=True)
     th.start()
-    th.join(20)
+    th.join(20 * H.scale())
     d = threading.Thread(target=conn.disable, daemon=True)
     d.start()
-    d.join(10)
+    d.join(10 * H.scale())
     done.wait(15)
     try:
         peer.close()
